@@ -375,8 +375,8 @@ impl Sut {
                 let target = match (kind, next_expiry(self.store(), now)) {
                     (1, Some(e)) => e - 1,
                     (2, Some(e)) => e,
-                    (3, Some(e)) => e + 1,
-                    _ => now + SEC,
+                    (3, Some(e)) => e.saturating_add(1),
+                    _ => now.saturating_add(SEC),
                 };
                 self.sess.clock.store(target.max(now), Ordering::SeqCst);
                 return Out::Unit;
